@@ -254,6 +254,33 @@ def run(rep: common.Report, tier: str, seed: int, replay=None) -> int:
                 if mm:
                     rep.violation(f"mesh {nm} differs from the original in {mm}", {"device": di})
             rep.count(1)
+        # path forms: a bare file name and a relative path with a directory, for devices and solutions
+        cwd_ = os.getcwd()
+        try:
+            os.chdir(td)
+            os.makedirs("sub dir", exist_ok=True)
+            dsmall = meshes.make_device(rng, holes=1, terminals=2, max_edge_length=1.6)
+            for rel in ("rel_device.h5", os.path.join("sub dir", "rel device é.h5"), os.path.join("new_dir", "deep", "d.h5")):
+                try:
+                    dsmall.to_hdf5(rel)
+                    back = tdgl.Device.from_hdf5(rel)
+                    if back != dsmall or same_mesh(back.mesh, dsmall.mesh):
+                        rep.violation("a device saved under a relative path does not load back equal", {"path": rel})
+                except Exception as e:  # noqa: BLE001
+                    rep.violation(f"saving / loading a device under a relative path raised {type(e).__name__}: {e}"[:160], {"path": rel})
+                rep.count(1)
+            solr = tdgl.solve(dsmall, runs.make_options(None, solve_time=0.01, dt_init=2e-3, dt_max=4e-3, output_file="rel_solution.h5"),
+                              applied_vector_potential=0.2)
+            for rel in ("rel_copy.h5", os.path.join("sub dir", "copy é.h5")):
+                try:
+                    solr.to_hdf5(rel)
+                    if not tdgl.Solution.from_hdf5(rel).equals(solr):
+                        rep.violation("a solution saved under a relative path does not load back equal", {"path": rel})
+                except Exception as e:  # noqa: BLE001
+                    rep.violation(f"saving / loading a solution under a relative path raised {type(e).__name__}: {e}"[:160], {"path": rel})
+                rep.count(1)
+        finally:
+            os.chdir(cwd_)
         # meshes of other sizes: a three-site mesh, and meshes whose site / edge counts cross 2**16 (index widths)
         from scipy.spatial import Delaunay as _Del
         size_cases = [("tiny", np.array([[0.0, 0.0], [1.0, 0.1], [0.3, 0.9], [1.2, 1.1]]))]
